@@ -118,6 +118,7 @@ class Run:
         self.n_solver = 0
         self.t_solver = 0.0
         self.held_locks = []
+        self.ghost_sums = {}
         self.members = {}      # oid of an object -> oids of counter-tracked symbolic lists it was appended to
         self.abstractions = []
         self.input_types = {}
